@@ -74,6 +74,18 @@ def make_gate(be, it, n, variant=0):
             return C.CNOT(qs0[1], qs0[0])
         return getattr(C, name)(*qs0)
     if how == "gen":
+        if variant % 4 == 3 and n > len(it["qs"]):
+            # the generator is handed over on a larger, explicitly labelled set of qubits, with an identity factor on the
+            # extra one (same gate: the constructor condenses the generator to its support)
+            import numpy
+            extra = max(q for q in range(1, n + 1) if q not in it["qs"])
+            ext = sorted(it["qs"] + [extra])
+            letters = dict(zip(it["qs"], it["g"][:-1]))
+            eg = [letters.get(q, 0) for q in ext] + [it["g"][-1]]
+            labels = [q - 1 for q in ext]
+            if be.name == "py":
+                return C.clifford_rotation_gate(be.pauli(eg), numpy.array(labels))
+            return C.clifford_rotation_gate(be.pauli(eg), (labels, tuple(labels), numpy.array(labels), be.torch.tensor(labels))[variant // 4 % 4])
         if variant % 2 == 0:
             g = C.CliffordGate(*qs0)
             g.set_generator(be.pauli(it["g"]))
@@ -102,7 +114,7 @@ def build(be, items, n, cls, mode, variant):
 
     gates = []
     for j, it in enumerate(items):
-        gates.append(None if it["k"] == "mz" else make_gate(be, it, n, j))
+        gates.append(None if it["k"] == "mz" else make_gate(be, it, n, j + 2 * len(items)))
 
     def add(circ, j):
         it = items[j]
